@@ -35,7 +35,7 @@ type dim struct {
 
 var dims = []dim{
 	{"process", []string{"nil", "root-env", "uid1000-gid2000-env", "uid1000-gid0", "uid0-gid2000", "gids-5-7"}},
-	{"linux", []string{"nil", "empty", "devices+rules", "devices+rules+rdt"}},
+	{"linux", []string{"nil", "empty", "devices+rules", "devices+rules+rdt", "rules-identical-to-edits"}},
 	{"mounts", []string{"nil", "unsorted-existing", "many-equal-depth", "many-mixed-depth"}},
 	{"hooks", []string{"nil", "existing"}},
 	{"env", []string{"none", "new", "override", "repeated", "override+repeated+new"}},
@@ -77,6 +77,14 @@ func buildOCI(c Case) *oci.Spec {
 	case "nil":
 	case "empty":
 		s.Linux = &oci.Linux{}
+	case "rules-identical-to-edits":
+		// the device cgroup rule list already holds, before a deny-all rule, allow rules identical to
+		// the ones the node templates produce (the list is ordered: an appended rule is not redundant)
+		s.Linux = &oci.Linux{Resources: &oci.LinuxResources{Devices: []oci.LinuxDeviceCgroup{
+			{Allow: true, Type: "c", Major: i64(1), Minor: i64(3), Access: "rwm"}, {Allow: true, Type: "c", Major: i64(10), Minor: i64(200), Access: "rw"},
+			{Allow: true, Type: "b", Major: i64(7), Minor: i64(0), Access: "rwm"}, {Allow: true, Type: "c", Major: i64(10), Minor: i64(20), Access: "rwm"},
+			{Allow: true, Type: "c", Major: i64(1), Minor: i64(3), Access: "r"}, {Allow: true, Type: "c", Major: i64(10), Minor: i64(200), Access: "rwm"},
+			{Allow: false, Access: "rwm"}}}}
 	case "devices+rules", "devices+rules+rdt":
 		s.Linux = &oci.Linux{
 			Devices: []oci.LinuxDevice{{Path: "/dev/existing", Type: "c", Major: 5, Minor: 6, UID: u32(7)}, {Path: "/dev/keep", Type: "b", Major: 8, Minor: 1, FileMode: fmode(0o600)}},
